@@ -246,7 +246,7 @@ StepOp(m0, o) ==
           ELSE IF o.name = "WaitForPendingACKs" THEN SubSeq(m.pend, w.consumed + 1, Len(m.pend))
           ELSE m.pend
         \* any script outside the well-formed / in-quantifier shapes leaves the socket unknown
-        bad(fr) == \E i \in 1..Len(fr) : fr[i].k \in {"hard", "short"} \/ (fr[i].k = "msg" /\ fr[i].rel = "foreign")
+        bad(fr) == \E i \in 1..Len(fr) : fr[i].k \in {"hard", "short", "sendfail"} \/ (fr[i].k = "msg" /\ fr[i].rel = "foreign")
         strange == (\E n \in 1..Len(o.plan) : bad(o.plan[n]))
                    \/ (IsWaitCmd(o) /\ (~clean \/ \E n \in 1..Len(o.plan) : AckOf(o.plan[n], 1).v \in {-1, -2}))
                    \/ (o.name = "WaitForPendingACKs" /\ w.v \in {-1, -2})
